@@ -2209,7 +2209,7 @@ SCRIPTS = [            # (committed proof script, generated modules it needs)
     ("EqCsvReader.v", ["GenCsvReader.v"]),
     ("EqAlias.v", ["GenAlias.v"]),
 ]
-NEEDED_VO = ["Base/GenPrelude", "Props/C04", "Props/C07", "Props/C18", "Props/C11", "Props/C16", "Props/C05", "Props/C19", "Props/C14", "Props/C06", "Props/C12", "Props/C09", "Props/C17", "Props/C15"]
+NEEDED_VO = ["Base/GenPrelude", "Props/C04", "Props/C07", "Props/C18", "Props/C11", "Props/C16", "Props/C05", "Props/C19", "Props/C14", "Props/C06", "Props/C12", "Props/C09", "Props/C17", "Props/C15", "Props/C03"]
 BUDGET = float(__import__("os").environ.get("SERIF_TRANSLATE_BUDGET", "28"))   # seconds for one run()
 
 HARD_TIMEOUT = 120.0   # seconds for one coqc that MUST run (generated file, first pass over a proof script)
